@@ -1023,6 +1023,84 @@ def sym_iter(ctx, it, node, ls):
     raise Unsupported('iteration over %r' % (it,), node)
 
 
+def filtered_keys(ctx, interp, fr, e, g, it):
+    """`(k for k in M if k not in N)` / `... if k in N` over symbolic maps M, N of the same key kind:
+    the set of keys as a map whose domain is the filtered domain (the order of a generator over a dict
+    is unspecified for the consumers modelled here: they only iterate it)"""
+    import ast as _ast
+    if not (isinstance(e, (_ast.GeneratorExp, _ast.ListComp)) and isinstance(g.target, _ast.Name)
+            and isinstance(e.elt, _ast.Name) and e.elt.id == g.target.id and len(g.ifs) == 1):
+        return None
+    if not (isinstance(it, VRef) and ctx.obj(it).kind == 'map'):
+        return None
+    t = g.ifs[0]
+    if not (isinstance(t, _ast.Compare) and len(t.ops) == 1 and isinstance(t.ops[0], (_ast.In, _ast.NotIn))
+            and isinstance(t.left, _ast.Name) and t.left.id == g.target.id):
+        return None
+    other = interp.eval(ctx, fr, t.comparators[0])
+    if not (isinstance(other, VRef) and ctx.obj(other).kind == 'map'):
+        return None
+    m, n = ctx.obj(it), ctx.obj(other)
+    if m.meta['keykind'] != n.meta['keykind']:
+        return None
+    from .ground import All, base_array
+    neg = isinstance(t.ops[0], _ast.NotIn)
+    role = ctx.roles.arrays.get(base_array(m.f['dom']).get_id())
+    if role is not None and m.f['dom'].sort().domain() == I:
+        # a fresh domain array defined by a (ground-instantiable) quantified fact
+        dom = z3.Array(fresh_name('filtered_dom'), I, B)
+        ctx.roles.array(dom, role)
+        md, nd = m.f['dom'], n.f['dom']
+        ctx.assume(All([role], lambda k: z3.Select(dom, k) == z3.And(
+            z3.Select(md, k), z3.Not(z3.Select(nd, k)) if neg else z3.Select(nd, k))))
+    else:
+        q = z3.Const(fresh_name('q'), m.f['dom'].sort().domain())
+        inn = z3.Select(n.f['dom'], q)
+        dom = z3.Lambda([q], z3.And(z3.Select(m.f['dom'], q), z3.Not(inn) if neg else inn))
+    r = ctx.new_obj('map', None, {'dom': dom, 'val': m.f['val']}, dict(m.meta))
+    ctx.obj(r).meta['name'] = 'filtered_keys'
+    return r
+
+
+def filtered_items(ctx, interp, fr, e, g, it):
+    """`[k for k, v in M.items() if v <op> expr]` over a symbolic map with Int values: the list of the
+    keys whose value satisfies the comparison, as a symbolic list whose multiset view is defined by the
+    filter (order and multiplicity beyond membership are not specified: each key occurs once)"""
+    import ast as _ast
+    from .ground import All, base_array
+    if not (isinstance(e, _ast.ListComp) and isinstance(g.target, _ast.Tuple) and len(g.target.elts) == 2
+            and all(isinstance(x, _ast.Name) for x in g.target.elts) and isinstance(e.elt, _ast.Name)
+            and e.elt.id == g.target.elts[0].id and len(g.ifs) == 1):
+        return None
+    if not (isinstance(it, VFunc) and it.kind == 'iterview' and it.name in ('items', 'iteritems')):
+        return None
+    m = ctx.obj(it.selfv)
+    if m.kind != 'map' or m.meta.get('valkind') != 'int' or not m.meta['keykind'].startswith('bytes'):
+        return None
+    t = g.ifs[0]
+    vname = g.target.elts[1].id
+    ops = {_ast.Gt: lambda a, b: a > b, _ast.GtE: lambda a, b: a >= b, _ast.Lt: lambda a, b: a < b,
+           _ast.LtE: lambda a, b: a <= b, _ast.Eq: lambda a, b: a == b, _ast.NotEq: lambda a, b: a != b}
+    if not (isinstance(t, _ast.Compare) and len(t.ops) == 1 and type(t.ops[0]) in ops
+            and isinstance(t.left, _ast.Name) and t.left.id == vname):
+        return None
+    rhs = interp.eval(ctx, fr, t.comparators[0])
+    if not isinstance(rhs, VInt):
+        return None
+    role = ctx.roles.arrays.get(base_array(m.f['dom']).get_id())
+    if role is None:
+        return None
+    op = ops[type(t.ops[0])]
+    r = new_slist(ctx, m.meta['keykind'], 'filtered_keys', bag=True)
+    o = ctx.obj(r)
+    bag, md, mv = o.f['bag'], m.f['dom'], m.f['val']
+    ctx.roles.array(bag, role)
+    ctx.assume(All([role], lambda k: z3.And(
+        z3.Select(bag, k) >= 0,
+        (z3.Select(bag, k) >= 1) == z3.And(z3.Select(md, k), op(z3.Select(mv, k), rhs.t)))))
+    return r
+
+
 def comprehension(ctx, interp, fr, e):
     if len(e.generators) != 1 or e.generators[0].is_async:
         raise Unsupported('comprehension shape', e)
@@ -1030,6 +1108,11 @@ def comprehension(ctx, interp, fr, e):
     it = interp.eval(ctx, fr, g.iter)
     conc = concrete_iter(ctx, it, e)
     if conc is None:
+        r = filtered_keys(ctx, interp, fr, e, g, it)
+        if r is None:
+            r = filtered_items(ctx, interp, fr, e, g, it)
+        if r is not None:
+            return r
         raise Unsupported('comprehension over symbolic collection', e)
     out = []
     saved = dict(fr.locals)
@@ -1282,6 +1365,21 @@ def slist_method(ctx, interp, ref, o, name, args, kwargs, node):
             # ghost: element -> an index at which it was appended
             o.f['where'] = z3.Store(o.f['where'], t, z3.simplify(o.f['len'] - 1))
         ctx.event('list-append', ref, args[0])
+        return NONE
+    if name == 'extend' and len(args) == 1 and isinstance(args[0], VRef) and \
+            ctx.obj(args[0]).kind == 'slist' and ctx.obj(args[0]).meta['elemkind'] == o.meta['elemkind'] \
+            and 'where' not in o.f:
+        src = ctx.obj(args[0])
+        k = z3.Int(fresh_name('k'))
+        a0, l0, a1, l1 = o.f['arr'], o.f['len'], src.f['arr'], src.f['len']
+        o.f['arr'] = z3.Lambda([k], z3.If(k < l0, z3.Select(a0, k), z3.Select(a1, k - l0)))
+        o.f['len'] = z3.simplify(l0 + l1)
+        if 'bag' in o.f:
+            if 'bag' not in src.f:
+                raise Unsupported('extend with a list without multiset view', node)
+            b0, b1 = o.f['bag'], src.f['bag']
+            q = z3.Int(fresh_name('q'))
+            o.f['bag'] = z3.Lambda([q], z3.Select(b0, q) + z3.Select(b1, q))
         return NONE
     if name == 'pop' and not args and 'bag' in o.f and 'where' not in o.f:
         nonempty = o.f['len'] > 0
@@ -1608,6 +1706,51 @@ def p_list(ctx, interp, args, kwargs, node):
             return h(ctx, args[0], node)
         raise Unsupported('list() of symbolic iterable', node)
     return ctx.new_obj('list', meta={'items': conc})
+
+
+@prim('builtins.sorted')
+def p_sorted(ctx, interp, args, kwargs, node):
+    """sorted(map / map.keys()): the keys as a symbolic list - each key once, ascending; the multiset
+    view is the domain (what the modelled consumers use: iteration, extend, membership)"""
+    from .ground import All, base_array
+    it = args[0] if args else None
+    if kwargs or len(args) != 1:
+        raise Unsupported('sorted() with key/reverse', node)
+    conc = concrete_iter(ctx, it, node)
+    if conc is not None:
+        vals = [v.conc_bytes() if isinstance(v, VBytes) else (v.conc() if isinstance(v, VInt) else None)
+                for v in conc]
+        if all(v is not None for v in vals):
+            order = sorted(range(len(conc)), key=lambda i: vals[i])
+            return ctx.new_obj('list', meta={'items': [conc[i] for i in order]})
+        raise Unsupported('sorted() of symbolic values', node)
+    m = None
+    if isinstance(it, VFunc) and it.kind == 'iterview' and it.name in ('keys', 'iterkeys'):
+        m = ctx.obj(it.selfv)
+    elif isinstance(it, VRef) and ctx.obj(it).kind == 'map':
+        m = ctx.obj(it)
+    if m is None or m.kind != 'map' or not m.meta['keykind'].startswith('bytes'):
+        raise Unsupported('sorted() of %r' % (it,), node)
+    role = ctx.roles.arrays.get(base_array(m.f['dom']).get_id())
+    if role is None:
+        raise Unsupported('sorted() of a map without a key role', node)
+    r = new_slist(ctx, m.meta['keykind'], 'sorted_keys', bag=True)
+    o = ctx.obj(r)
+    arr, ln, bag, md = o.f['arr'], o.f['len'], o.f['bag'], m.f['dom']
+    ctx.roles.array(bag, role)
+    ctx.roles.array(arr, 'sidx')
+    o.meta['keys_of'] = md
+    ctx.assume(All([role], lambda k: z3.Select(bag, k) == z3.If(z3.Select(md, k), 1, 0)))
+    ctx.assume(All(['sidx'], lambda i: z3.Implies(z3.And(i >= 0, i < ln), z3.Select(md, z3.Select(arr, i)))))
+    ctx.assume(All(['sidx', 'sidx'], lambda i, j: z3.Implies(
+        z3.And(i >= 0, i < j, j < ln), z3.Select(arr, i) < z3.Select(arr, j))))
+    # ghost: where each key sits in the list (every key occurs)
+    at = z3.Array(fresh_name('index_of_key'), I, I)
+    ctx.roles.array(at, role)
+    o.meta['index_of_key'] = at
+    ctx.assume(All([role], lambda k: z3.Implies(z3.Select(md, k), z3.And(
+        z3.Select(at, k) >= 0, z3.Select(at, k) < ln, z3.Select(arr, z3.Select(at, k)) == k))))
+    return r
 
 
 @prim('builtins.tuple')
